@@ -52,7 +52,7 @@ def report_obs(ctx, obs, analysed, rule="PANIC", only_funcs=None, entry=None):
     return n
 
 
-def check(ctx, entries, reach, rule="PANIC", modular=True, budget=300000, fold_scope=None):
+def check(ctx, entries, reach, rule="PANIC", modular=True, budget=300000, fold_scope=None, engine_setup=None):
     """Modular PANIC pass: every handwritten function of `reach` (default: everything reachable from
     `entries`) is analysed stand-alone with unconstrained arguments; calls to other members of the
     set are not inlined (they are analysed on their own), small helpers outside the set are."""
@@ -63,6 +63,8 @@ def check(ctx, entries, reach, rule="PANIC", modular=True, budget=300000, fold_s
         reach = sorted(p for p in ctx.cg.local_reachable(entries) if not F.body(p)["derived"])
     members = set(reach)
     eng = Engine(F, budget=budget)
+    if engine_setup is not None:
+        engine_setup(eng)  # interface assumptions of the caller's scope (e.g. I(Message) for writer-side functions)
     from engine import cfg as _cfg
     # members are analysed on their own and not inlined into each other — except small loop-free helpers (a guard such
     # as `ensure_available(data, off, n)?` extracted into a function must still establish its fact at the call site)
